@@ -8,6 +8,10 @@ fn main() {
         eprintln!("usage: check <ID> [--tier quick|thorough] [--replay FILE]");
         std::process::exit(2);
     }
+    if args[0] == "--worker-c14" {
+        install_quiet_panic_hook();
+        std::process::exit(props::c14::worker(&args[1], args[2].parse().unwrap()));
+    }
     let id = args[0].clone();
     let mut tier = match std::env::var("VERIF_TIER").as_deref() {
         Ok("thorough") => Tier::Thorough,
@@ -60,6 +64,7 @@ fn main() {
     let code = match id.as_str() {
         "C12" => props::c12::run(tier, seed, replay.as_deref()),
         "C13" => props::c13::run(tier, seed, replay.as_deref()),
+        "C14" => props::c14::run(tier, seed, replay.as_deref()),
         "C15" => props::c15::run(tier, seed, replay.as_deref()),
         _ => {
             eprintln!("unknown property {id}");
